@@ -37,6 +37,49 @@ func stable(read func() string) string {
 	return last
 }
 
+// tctx is a context whose FIRST Err() call, while the constructor under test is running, cancels the listed contexts before it
+// reads its own state: a cancellation landing at a model-chosen point of the construction (T4 for the context combinators).
+type tctx struct {
+	context.Context
+	used  atomic.Bool
+	armed *atomic.Bool
+	onErr func()
+}
+
+func (c *tctx) Err() error {
+	if c.armed.Load() && c.used.CompareAndSwap(false, true) && c.onErr != nil {
+		c.onErr()
+	}
+	return c.Context.Err()
+}
+
+// parseTrig reads the words after "/": p=1,2 (during the primary's Err) and 3=0,1 (during the Err of position 3)
+func parseTrig(ws []string) map[string][]int {
+	m := map[string][]int{}
+	for _, w := range ws {
+		kv := strings.SplitN(w, "=", 2)
+		if len(kv) != 2 {
+			continue
+		}
+		if kv[1] == "-" {
+			continue
+		}
+		for _, k := range strings.Split(kv[1], ",") {
+			m[kv[0]] = append(m[kv[0]], atoi(k))
+		}
+	}
+	return m
+}
+
+func splitSlash(f []string) ([]string, []string) {
+	for i, w := range f {
+		if w == "/" {
+			return f[:i], f[i+1:]
+		}
+	}
+	return f, nil
+}
+
 func errBit(c context.Context) string {
 	if c.Err() != nil {
 		return "err=1"
@@ -66,6 +109,20 @@ func execCtx(t *trace, script []string) {
 		}
 		return c, cancel
 	}
+	var armed atomic.Bool
+	// inputs of the "t" constructors: n nil, b never-cancellable (Done() == nil), 0 live, 1 already cancelled; each wrapped in a tctx
+	mkT := func(tok string, val string) (*tctx, context.CancelFunc) {
+		var inner context.Context = context.WithValue(context.Background(), ctxKey("k"+val), "v"+val)
+		var cancel context.CancelFunc
+		if tok != "b" {
+			inner, cancel = context.WithCancel(inner)
+			all = append(all, cancel)
+			if tok == "1" {
+				cancel()
+			}
+		}
+		return &tctx{Context: inner, armed: &armed}, cancel
+	}
 	for _, line := range script {
 		f := strings.Fields(line)
 		if len(f) == 0 {
@@ -73,6 +130,92 @@ func execCtx(t *trace, script []string) {
 		}
 		r := "skipped"
 		switch f[0] {
+		case "mkcombinet":
+			if len(f) < 2 || kind != "" {
+				break
+			}
+			kind = "combine"
+			toks, tw := splitSlash(f[2:])
+			trig := parseTrig(tw)
+			var prim context.Context
+			var primT *tctx
+			if f[1] != "n" {
+				primT, primCanc = mkT(f[1], "p")
+				prim = primT
+			}
+			var others []context.Context
+			var ts []*tctx
+			cancels = nil
+			for i, tok := range toks {
+				if tok == "n" {
+					others = append(others, nil)
+					ts = append(ts, nil)
+					cancels = append(cancels, nil)
+					continue
+				}
+				c, cc := mkT(tok, fmt.Sprint(i))
+				others = append(others, c)
+				ts = append(ts, c)
+				cancels = append(cancels, cc)
+			}
+			fire := func(ks []int) func() {
+				return func() {
+					for _, k := range ks {
+						if k == len(toks) {
+							if primCanc != nil {
+								primCanc()
+							}
+						} else if k >= 0 && k < len(cancels) && cancels[k] != nil {
+							cancels[k]()
+						}
+					}
+				}
+			}
+			if primT != nil {
+				primT.onErr = fire(trig["p"])
+			}
+			for i, c := range ts {
+				if c != nil {
+					c.onErr = fire(trig[fmt.Sprint(i)])
+				}
+			}
+			armed.Store(true)
+			result = bigbuff.CombineContext(prim, others...)
+			armed.Store(false)
+			r = stable(func() string { return errBit(result) })
+		case "mkconflatedt":
+			if len(f) < 2 || kind != "" {
+				break
+			}
+			kind = "conflated"
+			toks, tw := splitSlash(f[1:])
+			trig := parseTrig(tw)
+			var inputs []context.Context
+			var ts []*tctx
+			cancels = nil
+			for i, tok := range toks {
+				if tok == "n" {
+					tok = "0"
+				}
+				c, cc := mkT(tok, fmt.Sprint(i))
+				inputs = append(inputs, c)
+				ts = append(ts, c)
+				cancels = append(cancels, cc)
+			}
+			for i, c := range ts {
+				ks := trig[fmt.Sprint(i)]
+				c.onErr = func() {
+					for _, k := range ks {
+						if k >= 0 && k < len(cancels) && cancels[k] != nil {
+							cancels[k]()
+						}
+					}
+				}
+			}
+			armed.Store(true)
+			result, resCanc = bigbuff.ConflatedContext(inputs...)
+			armed.Store(false)
+			r = stable(func() string { return errBit(result) })
 		case "mkchain":
 			if len(f) != 3 || kind != "" {
 				break
@@ -190,7 +333,7 @@ func execCtx(t *trace, script []string) {
 			if kind != "conflated" || len(f) != 2 {
 				break
 			}
-			if i := atoi(f[1]); i >= 0 && i < len(cancels) {
+			if i := atoi(f[1]); i >= 0 && i < len(cancels) && cancels[i] != nil {
 				cancels[i]()
 			}
 			r = stable(func() string { return errBit(result) })
@@ -236,7 +379,73 @@ func genCtx(r *rng.R, tier string, i int) []string {
 		}
 		return "n"
 	}
-	switch i % 3 {
+	ttok := func() string { return []string{"0", "0", "0", "0", "0", "0", "0", "0", "1", "n", "b", "b"}[r.Intn(12)] }
+	trigs := func(n int, withP bool) string {
+		out := " /"
+		if withP && r.Intn(3) == 0 {
+			out += fmt.Sprintf(" p=%d", r.Intn(n+1))
+		}
+		// mostly a position that was scanned already: the cancellation lands between its pre-check and its registration
+		target := func(j int) int {
+			if j > 0 && r.Intn(10) < 7 {
+				return r.Intn(j)
+			}
+			return r.Intn(n + 1)
+		}
+		for j := 0; j < n; j++ {
+			if r.Intn(2) == 0 {
+				out += fmt.Sprintf(" %d=%d", j, target(j))
+				if r.Intn(4) == 0 {
+					out += fmt.Sprintf(",%d", target(j))
+				}
+			}
+		}
+		return out
+	}
+	switch i % 5 {
+	case 3:
+		n := 2 + r.Intn(3)
+		line := "mkcombinet " + []string{"0", "0", "0", "1", "n", "b"}[r.Intn(6)]
+		for k := 0; k < n; k++ {
+			line += " " + ttok()
+		}
+		s = append(s, line+trigs(n, true), "value")
+		steps := r.Intn(4)
+		for k := 0; k < steps; k++ {
+			switch r.Pick(25, 55, 20) {
+			case 0:
+				s = append(s, "cancelp")
+			case 1:
+				s = append(s, fmt.Sprintf("cancelo %d", r.Intn(n+1)))
+			case 2:
+				s = append(s, fmt.Sprintf("cancel2 %d %d", r.Intn(n+1), r.Intn(n+1)))
+			}
+		}
+	case 4:
+		n := 1 + r.Intn(4)
+		line := "mkconflatedt"
+		for k := 0; k < n; k++ {
+			line += " " + []string{"0", "0", "0", "1", "b"}[r.Intn(5)]
+		}
+		s = append(s, line+trigs(n, false), "value")
+		order := make([]int, n)
+		for k := range order {
+			order[k] = k
+		}
+		for k := n - 1; k > 0; k-- {
+			j := r.Intn(k + 1)
+			order[k], order[j] = order[j], order[k]
+		}
+		for _, id := range order {
+			switch r.Pick(75, 10, 15) {
+			case 0:
+				s = append(s, fmt.Sprintf("canceli %d", id))
+			case 1:
+				s = append(s, "cancelfn")
+			case 2:
+				s = append(s, fmt.Sprintf("cancel2 %d %d", id, r.Intn(n)))
+			}
+		}
 	case 0:
 		s = append(s, fmt.Sprintf("mkchain %d %d", r.Pick(85, 15), r.Pick(85, 15)))
 		ops := []string{"cancel other", "cancel ctx", "cancel both"}
